@@ -1112,6 +1112,8 @@ class Interp(object):
                     raise Raise('ValueError', node, self.where(node, frame))
                 return base[slice(*parts)]
             return Top('slice')
+        if isinstance(base, Obj) and base.cls in NT_FIELDS and isinstance(idx, int) and not isinstance(idx, bool) and all(k in base.fields for k in NT_FIELDS[base.cls]):
+            base = tuple(base.fields[k] for k in NT_FIELDS[base.cls])
         if isinstance(base, (list, tuple, str, bytes)) and isinstance(idx, int) and not isinstance(idx, bool):
             if -len(base) <= idx < len(base):
                 return base[idx]
@@ -2341,6 +2343,8 @@ class Interp(object):
             base = self.ev(t.value, frame)
             self.store_attr(base, t.attr, v, node, frame)
         elif isinstance(t, (ast.Tuple, ast.List)):
+            if isinstance(v, Obj) and v.cls in NT_FIELDS and all(k in v.fields for k in NT_FIELDS[v.cls]):
+                v = tuple(v.fields[k] for k in NT_FIELDS[v.cls])        # a namedtuple unpacks like the tuple it is
             if isinstance(v, (tuple, list)) and not any(isinstance(x, ast.Starred) for x in t.elts):
                 if len(v) != len(t.elts):
                     raise Raise('ValueError', node, self.where(node, frame))
